@@ -111,7 +111,8 @@ _state: dict[str, Any] = {}
 
 def setup_worker(env: core.Env) -> None:
     fs = core.new_fs()
-    conns = [fs.connect("db1", "s1") for _ in range(3)]
+    # the three sessions are opened in the three documented ways of asking for the default, autocommit on
+    conns = [fs.connect("db1", "s1"), fs.connect("db1", "s1", autocommit=None), fs.connect("db1", "s1", autocommit=True)]
     curs = [[c.cursor(), c.cursor(core.DictCursor) if False else c.cursor()] for c in conns]
     nodb_conns = [fs.connect() for _ in range(3)]
     nodb_curs = [[c.cursor(), c.cursor()] for c in nodb_conns]
